@@ -1,12 +1,19 @@
 // C20 — P2P transport is authenticated, ordered and intact; admission rules hold.
 //
-// Three exhaustive bounded explorations on the real code (DESIGN §5 C20):
+// Exhaustive bounded explorations on the real code (DESIGN §5 C20):
 //
 //	(a) p2p.SecretConnection over a recording in-memory duplex: every
-//	    (write sizes, read-buffer sizes) pattern, every frame-level tampering;
-//	(b) p2p.Channel packetisation: explicit-state search over send/pump/deliver;
+//	    (write sizes, read-buffer sizes) pattern; long honest streams (520 frames
+//	    in each direction: the frame counters carry four times); every frame-level
+//	    tampering on either direction at units 0..4, and on the long script every
+//	    copy / exchange / displacement of an anchor unit at EVERY distance;
+//	(b) p2p.Channel packetisation: explicit-state search over send/pump/deliver
+//	    (sizes k*1024-1, k*1024, k*1024+1 ...); (b') real started MConnections;
 //	(c) Switch.AddPeerWithConnection with the real refuseListFilter/authByCA
-//	    closures: every admission configuration, before and after a validator change.
+//	    closures: every admission configuration x direction of the connection
+//	    (accepted | dialed), before and after a validator change.
+//
+// Nothing waits without a deadline: see watchdog.go.
 package main
 
 import (
